@@ -32,8 +32,9 @@ CONSTANTS MaxL,      \* max number of lambdas
           Sigs3,     \* parameter lists for configurations of 3 lambdas
           Ctxs       \* subset of {"mod", "fun"}: statement at module level / inside a function
 
-VARIABLES phase, cx, n, par, brk, span, sig
-vars == <<phase, cx, n, par, brk, span, sig>>
+VARIABLES phase, cx, n, par, brk, span, sig,
+          text, fl, ll      \* set by Finish: the rendered text, first and last physical line of every lambda
+vars == <<phase, cx, n, par, brk, span, sig, text, fl, ll>>
 
 SigText(s) == CASE s = "none" -> "" [] s = "x" -> " x" [] s = "y" -> " y" [] s = "xy" -> " x, y"
                 [] s = "xd" -> " x=5" [] s = "va" -> " *a" [] s = "kw" -> " **k" [] s = "po" -> " x, /"
@@ -45,6 +46,7 @@ NameKey(s) == CASE s = "none" -> "|||" [] s = "x" -> "x|||" [] s = "y" -> "y|||"
 
 Init == /\ phase = "build" /\ cx \in Ctxs /\ n = 0
         /\ par = <<>> /\ brk = <<>> /\ span = <<>> /\ sig = <<>>
+        /\ text = "" /\ fl = <<>> /\ ll = <<>>
 
 RECURSIVE IsAncOrSelf(_, _)
 IsAncOrSelf(a, k) == IF k = 0 THEN FALSE ELSE (a = k \/ IsAncOrSelf(a, par[k]))
@@ -56,12 +58,7 @@ Add(p, b, sp, sg) ==
   /\ sg \in (IF n + 1 >= 3 THEN Sigs3 ELSE Sigs)
   /\ (n + 1 >= 3 => \A k \in 1 .. n : sig[k] \in Sigs3)
   /\ n' = n + 1 /\ par' = Append(par, p) /\ brk' = Append(brk, b) /\ span' = Append(span, sp) /\ sig' = Append(sig, sg)
-  /\ UNCHANGED <<phase, cx>>
-Finish == phase = "build" /\ n >= 1 /\ phase' = "done" /\ UNCHANGED <<cx, n, par, brk, span, sig>>
-Next == \/ \E p \in 0 .. MaxL, b \in {"same", "nl"}, sp \in {"one", "two"}, sg \in Sigs \cup Sigs3 : Add(p, b, sp, sg)
-        \/ Finish
-Spec == Init /\ [][Next]_vars
-
+  /\ UNCHANGED <<phase, cx, text, fl, ll>>
 (* ---- rendering as a token sequence --------------------------------------- *)
 Tok(t, nl, o, c) == [t |-> t, nl |-> nl, open |-> o, close |-> c]
 NL == Tok("\n    ", 1, 0, 0)
@@ -84,8 +81,21 @@ RECURSIVE NlBefore(_, _)
 NlBefore(ts, i) == IF i <= 1 THEN 0 ELSE ts[i - 1].nl + NlBefore(ts, i - 1)
 PosOpen(ts, k)  == CHOOSE i \in 1 .. Len(ts) : ts[i].open = k
 PosClose(ts, k) == CHOOSE i \in 1 .. Len(ts) : ts[i].close = k
-FirstLine(k) == 1 + NlBefore(Toks, PosOpen(Toks, k))      \* line of the `lambda` keyword = co_firstlineno
-LastLine(k)  == 1 + NlBefore(Toks, PosClose(Toks, k))
+(* Finish: the configuration is complete; derive its text and the physical lines (Python's rule: a line *)
+(* break inside parentheses does not end the logical line, it only advances the physical line number)  *)
+Finish == /\ phase = "build" /\ n >= 1 /\ phase' = "done"
+          /\ LET ts == Toks
+             IN /\ text' = Cat(ts)
+                /\ fl' = [k \in 1 .. n |-> 1 + NlBefore(ts, PosOpen(ts, k))]   \* line of the `lambda` keyword = co_firstlineno
+                /\ ll' = [k \in 1 .. n |-> 1 + NlBefore(ts, PosClose(ts, k))]
+          /\ UNCHANGED <<cx, n, par, brk, span, sig>>
+FirstLine(k) == fl[k]
+LastLine(k)  == ll[k]
+
+Next == \/ \E p \in 0 .. MaxL, b \in {"same", "nl"}, sp \in {"one", "two"}, sg \in Sigs \cup Sigs3 : Add(p, b, sp, sg)
+        \/ Finish
+Spec == Init /\ [][Next]_vars
+
 
 (* ---- expected result ------------------------------------------------------ *)
 (* what cannot be excluded knowing only the first line of the object's code *)
@@ -110,7 +120,7 @@ PreOrder == Done => \A i \in 1 .. n - 1 : FirstLine(i) <= FirstLine(i + 1)
 
 Emit == Done =>
   PrintT(ToJson([cx |-> cx, n |-> n, par |-> par, brk |-> brk, span |-> span, sig |-> sig,
-                 text |-> Cat(Toks),
+                 text |-> text,
                  first |-> [i \in 1 .. n |-> FirstLine(i)], last |-> [i \in 1 .. n |-> LastLine(i)],
                  exp |-> [i \in 1 .. n |-> Expected(i)],
                  twin |-> [i \in 1 .. n |-> Twin(i)],
